@@ -131,6 +131,16 @@ def run(out, tier, seed):
         tjobs.append({'name': f'thrp:{k}', 'nstages': 5, 'preempt': [[] for _ in range(n)],
                       'chunks': [prm_sensitive_desc(r2, f'thrp:{k}:p{j}', j + off) for j in range(n)],
                       'hot': STAGE_FUNCS if k % 4 else STAGE_FUNCS[:3]})
+    # different data, the SAME clustering parameters in every thread, and every line of the clustering wrappers a pre-emption point:
+    # whatever the wrappers keep between two of their lines must belong to the call
+    for k in range(12 if tier == 'quick' else 150):
+        n = 2 if k % 2 else 3
+        chunks = chunk_descs(random.Random(f'C13clu:{seed}:{k}'), n, f'thrc:{k}')
+        for d in chunks:
+            d['prms'].pop('SLICING_PRMS', None)
+            d['prms'].pop('GROUPING_PRMS', None)
+        tjobs.append({'name': f'thrc:{k}', 'nstages': 5, 'preempt': [[] for _ in range(n)], 'chunks': chunks,
+                      'hot': ['agglomerative_cluster', 'clusterize'] if k % 3 else ['agglomerative_cluster', 'clusterize', 'ncomp_from_gmm', 'best_gmm', 'get_fluffiness']})
     # executed and judged in batches (the recorded pairs of a thorough run do not fit in memory at once)
     work = [('run_interleaving', j) for j in jobs] + [('run_threads', j) for j in tjobs]
     npairs, inexact, switches = 0, 0, 0
